@@ -73,12 +73,19 @@ pub fn detect_parser_type(uri: &str) -> Option<RegistryType> {
 }
 
 fn is_github_actions_workflow(uri: &str) -> bool {
-    let is_github_dir = uri.contains(".github/workflows/")
-        || uri.contains(".github\\workflows\\")
-        || uri.contains(".github/actions/")
-        || uri.contains(".github\\actions\\");
+    let is_github_dir = contains_dir(uri, ".github/workflows/")
+        || contains_dir(uri, ".github\\workflows\\")
+        || contains_dir(uri, ".github/actions/")
+        || contains_dir(uri, ".github\\actions\\");
     let is_yaml = uri.ends_with(".yml") || uri.ends_with(".yaml");
     is_github_dir && is_yaml
+}
+
+/// Check that `dir` occurs in `uri` as whole path components, i.e. at the start
+/// of the URI or right after a path separator (so `x.github/workflows/` does not count).
+fn contains_dir(uri: &str, dir: &str) -> bool {
+    uri.match_indices(dir)
+        .any(|(i, _)| i == 0 || matches!(uri.as_bytes()[i - 1], b'/' | b'\\'))
 }
 
 /// Registry-specific additional information
